@@ -1,14 +1,17 @@
 package s0283
 
+type G3 struct {
+	F0x0x0x0 int32
+}
+
 type G2 struct {
-	F1x0x0 *int64
+	F0x0x0 *G3
 }
 
 type G1 struct {
-	F1x0 G2
+	F0x0 G2
 }
 
 type T struct {
-	F0 int32
-	F1 []G1
+	F0 *G1
 }
